@@ -135,13 +135,12 @@ theorem pools_function_of_current (ops : List Op) (k : Nat) :
     (runOps State.init ops).mpool k = (curKeys (runOps State.init ops)).count k :=
   (inv5_runOps ops State.init inv5_init).pool k
 
-/-- bound sockets are a function of the running configuration, outside C01's F2 region
-    (C01.history_atomic_partial, restated for this property) -/
-theorem sockets_function_of_current_partial (ops : List Op)
-    (hx : C01.noExcluded State.init none ops = true) :
+/-- bound sockets are a function of the running configuration — full strength, for every history
+    (C01.history_atomic, restated for this property) -/
+theorem sockets_function_of_current (ops : List Op) :
     (C01.answers (C01.runBoth State.init none ops).1).Perm (C01.Spec.cfgAnswers (C01.runBoth State.init none ops).2) ∧
     ((C01.runBoth State.init none ops).2 = none → (C01.runBoth State.init none ops).1.socks = []) :=
-  (C01.history_atomic_partial ops hx).2
+  (C01.history_atomic ops).2
 
 /-- **why the callbacks never run** (the mechanism behind F4, for every history): the cancel
     function of every context that ever becomes current ranges over an EMPTY callback list, and
